@@ -17,7 +17,7 @@ PART = {}
 ALPHA = "-=fox1"
 MENU = ["", "-", "--", "---", "--=", "-=", "null", "--opt", "--flag", "-f", "-o", "--opt=", "-fo", "-of", "--num=x", "-n", "-1", "--maybe", "-m"]
 BOUNDS = {"quick": "1-2 symbolic tokens (lengths 0..3 / 0..2 over {-,=,f,o,x,1}) on 8 format skeletons, plus all 3-token lines over a per-format menu of 12-17 literals (formats S1,S2,S4,S7); strict and lenient",
-          "thorough": "3 symbolic tokens of length <= 2, 2 tokens of length <= 3, larger budgets"}
+          "thorough": "2 symbolic tokens of lengths <= 3 / <= 2 on all formats, 3 symbolic tokens of length 1-2 on S1/S2/S7, 3-token lines over the full literal menus (21-29 literals) of S1-S4 and the short menus of the others"}
 OUTSIDE = ["token sequences of length 4-6 (property says 6)", "alphabet beyond {-,=,f,o,x,1} and the menu literals", "formats other than the 8 skeletons in harness/pfmt.py"]
 STUBS = []
 ASSUMPTIONS = ["documented errors = CannotParseArgsException, NoSuchOptionException, ValueError (type conversion)"]
@@ -164,26 +164,27 @@ def fault(kind: int, v: str, w: str, long_spelling: bool) -> bool:
 
 def conditions(tier):
     quick = tier == "quick"
-    t = 90 if quick else 900
+    t = 90 if quick else 600
     conds = []
     skels = sorted(pfmt.SKELS)
     for sk in skels:
         for l1 in range(0, 4):
             conds.append({"name": "tokens1[%s,%d]" % (sk, l1), "fn": tokens1, "timeout": t, "part": {"skel": sk, "l1": l1},
                           "bounds": "format %s, one token of length %d over {-,=,f,o,x,1}, strict+lenient" % (sk, l1)})
-        lens2 = [(a, b) for a in range(0, 3) for b in range(0, 3)] if quick else [(a, b) for a in range(0, 4) for b in range(0, 4)]
+        lens2 = [(a, b) for a in range(0, 3) for b in range(0, 3)] if quick else [(a, b) for a in range(0, 4) for b in range(0, 3)]
         if quick and sk not in ("S1", "S2", "S6"):
             lens2 = [(2, 1), (2, 2)]
         for l1, l2 in lens2:
             conds.append({"name": "tokens2[%s,%d,%d]" % (sk, l1, l2), "fn": tokens2, "timeout": t, "part": {"skel": sk, "l1": l1, "l2": l2},
                           "bounds": "format %s, two tokens of lengths %d,%d" % (sk, l1, l2)})
-        if not quick:
-            for l1, l2, l3 in [(a, b, c) for a in (1, 2) for b in (1, 2) for c in (0, 1, 2)]:
+        if not quick and sk in ("S1", "S2", "S7"):
+            for l1, l2, l3 in [(a, b, c) for a in (1, 2) for b in (1, 2) for c in (1, 2)]:
                 conds.append({"name": "tokens3[%s,%d,%d,%d]" % (sk, l1, l2, l3), "fn": tokens3, "timeout": t, "part": {"skel": sk, "l1": l1, "l2": l2, "l3": l3},
                               "bounds": "format %s, three tokens of lengths %d,%d,%d" % (sk, l1, l2, l3)})
-        menu = menu_for(pfmt.SKELS[sk], not quick)
+        full = (not quick) and sk in ("S1", "S2", "S3", "S4")
+        menu = menu_for(pfmt.SKELS[sk], full)
         for k1 in (range(len(menu)) if (not quick or sk in ("S1", "S2", "S4", "S7")) else []):
-            conds.append({"name": "menu3[%s,%r]" % (sk, menu[k1]), "fn": menu3, "timeout": t, "part": {"skel": sk, "k1": k1, "n": len(menu), "full": not quick},
+            conds.append({"name": "menu3[%s,%r]" % (sk, menu[k1]), "fn": menu3, "timeout": t, "part": {"skel": sk, "k1": k1, "n": len(menu), "full": full},
                           "bounds": "format %s, first token %r, second and third token any of the %d menu literals %r" % (sk, menu[k1], len(menu), menu)})
     conds.append({"name": "tokens_twin", "fn": tokens_twin, "timeout": t, "expect": "refute", "part": {"skel": "S1"}, "bounds": "reachability twin"})
     conds.append({"name": "fault", "fn": fault, "timeout": t, "bounds": "7 single-fault mutations of a valid line, values 1-2 chars over {a,x,1,=}, long/short spelling"})
